@@ -186,3 +186,47 @@ def run_engine(ctx, prop, props_file, prefixes, seed_offset, what):
     if proof_broken and not ctx.violations:
         ctx.violation("a %s theorem no longer checks" % prop, {"theorem_or_correspondence": getattr(ctx, "broken_proof", {})},
                       found_input=False)
+
+
+def run_linewriter(ctx):
+    """C18: the real lineWriter against Build/LineWriter.v on random chunkings (two rounds per writer)."""
+    out = os.path.join(ctx.tmp, "lw.tsv")
+    n = 1500 if ctx.quick() else 12000
+    rc, o = ctx.go_overlay_test("", {"zz_verif_linewriter_test.go": os.path.join(HARNESS, "overlay/root/zz_verif_linewriter_test.go")},
+                                "^TestVerifLineWriter$", {"VERIF_OUT": out, "VERIF_SEED": str(ctx.seed), "VERIF_CASES": str(n)})
+    if rc != 0:
+        ctx.violation("lineWriter harness failed (exit %d)" % rc, {"theorem_or_correspondence": "lineWriter harness", "output": o[-2000:]},
+                      found_input=False)
+        return
+
+    def lst(field):
+        items = [x for x in field.split(",") if x]
+        return cq_list([cq_bytes(bytes.fromhex(x[1:])) for x in items], "(list N)")
+
+    cases, oracles = [], []
+    for line in open(out):
+        f = line.rstrip("\n").split("\t")
+        if f[0] == "ORACLE":
+            oracles.append(f[1])
+        elif f[0] == "case":
+            cases.append(f[1:5])
+    for o_ in oracles[:3]:
+        ctx.violation("implementation violates C18: %s" % o_, {"oracle": o_, "how": "harness/overlay/root/zz_verif_linewriter_test.go, VERIF_SEED=%d" % ctx.seed})
+    exprs = []
+    shard = 800
+    for i in range(0, len(cases), shard):
+        items = ["(%d, (%s, %s, %s, %s))" % (i + j, lst(c[0]), lst(c[1]), lst(c[2]), lst(c[3])) for j, c in enumerate(cases[i:i + shard])]
+        exprs.append("lw_mismatches [\n" + ";\n".join(items) + "]")
+    okc, res, logs = ctx.coq_eval(HDR, exprs)
+    if not okc:
+        ctx.violation("lineWriter model evaluation failed", {"theorem_or_correspondence": "Build/LineWriter.v evaluation", "log": logs[:1]}, found_input=False)
+        return
+    mism = [x for r in res for x in r]
+    ctx.coverage["correspondence"]["linewriter_cases"] = len(cases)
+    ctx.coverage["correspondence"]["linewriter_mismatches"] = len(mism)
+    ctx.coverage["evaluations"] += len(cases)
+    ctx.log("lineWriter cases=%d mismatches=%d oracle_failures=%d" % (len(cases), len(mism), len(oracles)))
+    if mism and not oracles:
+        ctx.violation("lineWriter model and implementation disagree on %d cases" % len(mism),
+                      {"theorem_or_correspondence": "correspondence Build/LineWriter.v <-> lineWriter.go", "cases": [cases[i] for i in mism[:5]]},
+                      found_input=False)
